@@ -569,6 +569,12 @@ def rspStatus (t : Trx) (tcm : CtrlMsg) (rest : List CtrlMsg) (mem s4 : List Nat
         let t ← ctrlSend { t with queue := rest }
         pure (0, t)
 
+/-- `rsp_len = p ? p - buf - 4 : strlen(buf) - 4` -/
+def rspLenOf (p : Option Nat) (strlenBuf : Nat) : Nat :=
+  match p with
+  | some i => i
+  | none => strlenBuf - 4
+
 /-- `trx_ctrl_read_cb` for the datagram `d` waiting on the control socket; returns the return
 code and the new state -/
 def cReadCb (t : Trx) (d : List Nat) : Except Fault (Int × Trx) := do
@@ -583,7 +589,7 @@ def cReadCb (t : Trx) (d : List Nat) : Except Fault (Int × Trx) := do
   -- p = strchr(buf + 4, ' '); rsp_len = p ? p - buf - 4 : strlen(buf) - 4;
   let s4 ← cstrAt mem cap 4
   let p := strchrIdx s4 32
-  let rspLen := match p with | some i => i | none => s0.length - 4
+  let rspLen := rspLenOf p s0.length
   let t := { t with ev := t.ev ++ [Event.timerDel] }             -- osmo_timer_del
   match t.queue with
   | [] => return (-eINVAL, t)
